@@ -153,6 +153,7 @@ func specSameQuota(ue *chf_context.ChfUe, old map[int32]int64) bool {
 //@   ensures [C10] result0 != nil ==> specUe(chargingData).Cdr[chargingSessionId] != nil && specUe(chargingData).Cdr[chargingSessionId].ChargingFunctionRecord != nil
 //@   ensures [C10 C02] forall k string :: k != chargingSessionId ==> specUe(chargingData).Cdr[k] == old(specUe(chargingData).Cdr[k])
 //@   assert "err := p.UpdateCDR(cdr, chargingData)": [C02 C10] cdr == ue.Cdr[chargingSessionId] && cdr != nil && cdr.ChargingFunctionRecord != nil
+//@   assert "cdr = newRecord": [C02] cap(newRecord.ChargingFunctionRecord.ListOfMultipleUnitUsage) == 0
 
 // Create: 201 with a Location that ends in the new session reference and the echoed sequence number, or
 // a 4xx problem; the reference is computed and the record registered under it while the subscriber lock
